@@ -25,7 +25,7 @@ class TLCError(RuntimeError):
 
 
 def _java(heap):
-    return ["java", "-Xmx" + heap, "-XX:+UseParallelGC", "-cp", JARS, "tlc2.TLC"]
+    return ["java", "-Xmx" + heap, "-Xss512m", "-XX:+UseParallelGC", "-cp", JARS, "tlc2.TLC"]
 
 
 def _tmpdir(tag):
@@ -67,7 +67,7 @@ class MCResult(object):
 
 
 def model_check(module, cfg=None, workers=None, heap="12g", timeout=3600, extra=(), env=None,
-                coverage=True, simulate=None, dump=None):
+                coverage=False, simulate=None, dump=None):
     """Run TLC on spec/<module>.tla with spec/<cfg>.  Returns MCResult (never raises for a
     property violation; raises TLCError when TLC could not run the model)."""
     cfg = cfg or (module + ".cfg")
@@ -106,6 +106,14 @@ def model_check(module, cfg=None, workers=None, heap="12g", timeout=3600, extra=
 _RE_FAIL = re.compile(r'<<"(FAIL|NOTE)", (\d+), \{(.*?)\}>>')
 _RE_DONE = re.compile(r'<<"DONE", (-?\d+)>>')
 _RE_L = re.compile(r"^/?\\? ?l = (\d+)", re.M)
+
+
+def _errtext(out):
+    i = out.find("Error:")
+    if i < 0:
+        return out[-2500:]
+    j = out.find("The behavior up to this point", i)
+    return out[i:(j if j > 0 else i + 3000)][:3000]
 
 
 class ValResult(object):
@@ -191,7 +199,7 @@ def validate(module, traces, cfg=None, shards=None, heap="3g", timeout=3000, kee
                 ls = _RE_L.findall(out)
                 where = index[int(ls[-1]) - 1] if ls and 0 < int(ls[-1]) <= len(index) else None
                 raise TLCError("trace validation with %s did not consume %s (rc=%s, done=%s, at %s):\n%s"
-                               % (module, path, rc, done.group(1) if done else None, where, out[-2500:]))
+                               % (module, path, rc, done.group(1) if done else None, where, _errtext(out)))
             for kind, l, body in _RE_FAIL.findall(out):
                 ti, n = index[int(l) - 1]
                 clauses = re.findall(r'"([^"]+)"', body)
